@@ -658,7 +658,7 @@ FILE_TAILS = ["\n", "\n", "", "\n# end of file", "  # trailing comment", "\n\n\n
 
 def materialize(world, root: str, schema_partition=None, queries_partition=None, creation_order_seed: Optional[int] = None,
                 extra_cfg: Optional[Dict[str, Any]] = None, remote_url: Optional[str] = None,
-                tail_seed: Optional[int] = None) -> Dict[str, Any]:
+                tail_seed: Optional[int] = None, decoys_seed: Optional[int] = None) -> Dict[str, Any]:
     """Write the project into `root`.  Returns {"argv", "config_path", "targets", "cfg"}."""
     import random
     os.makedirs(root, exist_ok=True)
@@ -692,6 +692,16 @@ def materialize(world, root: str, schema_partition=None, queries_partition=None,
         writes.append((rel, text))
     if extra_cfg:
         cfg.update(extra_cfg)
+    if decoys_seed is not None and schema_partition:
+        # leftovers next to the schema files that are NOT .graphql/.graphqls/.gql files: editor backups, notes, old revisions
+        # holding conflicting definitions.  A source tree "of .graphql/.graphqls/.gql files" does not include them.
+        drng = random.Random(decoys_seed)
+        dirs = sorted({os.path.dirname(rel) for rel, _ in writes if rel.startswith("schema_dir")})
+        stale = "\n\n".join(d["sdl"].replace("{", "{\n  zzStaleField: Int", 1) if d["kind"] in ("type", "input") and "{" in d["sdl"]
+                            else d["sdl"] for d in world["defs"][: 1 + drng.randrange(len(world["defs"]))])
+        for name in drng.sample(["old.graphql~", "c_enums.gql_old", "x.graphqlbak", "schema.graphql.orig", "NOTES.txt", "types.graphqlx",
+                                 "a.gqls", "README.md", "zz.GRAPHQL.bak"], 1 + drng.randrange(3)):
+            writes.append((os.path.join(drng.choice(dirs), name), stale if not name.endswith((".txt", ".md")) else "not graphql at all {{{"))
     if tail_seed is not None:
         # how a GraphQL file ends is free: with or without a final newline, with a trailing comment, with blank lines
         trng = random.Random(tail_seed)
